@@ -480,11 +480,11 @@ class Evaluator:
                 val = None
             else:
                 val = self.run_formula(inst, getattr(c, "pname", c.name), f, key)
-            if c.is_cached:
-                if val is None and not self.allow_none(inst, c):
-                    ex = EvalRaise("NoneReturnedError", "none")
-                    ex.noline = True
-                    raise ex
+            if val is None and not self.allow_none(inst, c):
+                # (cached or not: an uncached cells is refused None like a cached one)
+                ex = EvalRaise("NoneReturnedError", "none")
+                ex.noline = True
+                raise ex
         except BaseException as ex:
             if isinstance(ex, EvalRaise) and getattr(ex, "stack", None) is None:
                 ex.stack = self.snapshot()
